@@ -107,6 +107,44 @@ func (o *Origins) acceptEdges(cond *Cond, derived bool) map[Edge]bool {
 			}
 		}
 	}
+	// disjunctions: the false edge of `ok := a && b; if ok` (or the true edge of `a || b`) is reached through one
+	// of several inputs of the boolean phi; the edge establishes cond when every such input does
+	if derived && cond.ForAll == "" {
+		for _, e := range o.AllEdges() {
+			if acc[e] {
+				continue
+			}
+			n := len(e.From.Instrs)
+			if n == 0 {
+				continue
+			}
+			ifi, ok := e.From.Instrs[n-1].(*ssa.If)
+			if !ok {
+				continue
+			}
+			alts := o.altFacts(ifi.Cond, e.Succ == 0)
+			if alts == nil {
+				continue
+			}
+			all := true
+			for _, fs := range alts {
+				hit := false
+				for _, f := range fs {
+					if cond.Match(f, o) {
+						hit = true
+						break
+					}
+				}
+				if !hit {
+					all = false
+					break
+				}
+			}
+			if all {
+				acc[e] = true
+			}
+		}
+	}
 	// tail calls: "return g(...)" passes g's error on untested. Such a return is a success return only
 	// if g succeeded, so when "g's error is nil" establishes cond (directly, or through g's summary)
 	// the return is behind the condition: recorded as a pseudo edge of the return's block.
